@@ -36,6 +36,7 @@ ASSUMPTIONS = [
     "T1 shapes: <= 2 allow rules and <= 2 ignore rules; candidate availability patterns {address only, peername+address, address+Host, address+ClientHello SNI, address+client.sni, all five, none}",
     "parse_client_hello (kaitai) is summarised in the ClientTLSLayer contract by its outcomes (incomplete / a ClientHello / ValueError)",
     "make_pipe contract: h11's ReceiveBuffer.maybe_extract_at_most(len(buf)) is summarised as 'returns the whole content, empties the buffer' (real method natively)",
+    "laziness of handshake_record_contents (only the records carrying the ClientHello are validated; what follows in the same buffer is not looked at) cannot be stated in T1: the engine runs generators eagerly when a for-loop consumes them, so a lazy and an eager reader are indistinguishable symbolically; it is checked in T2 (ClientHello followed by ChangeCipherSpec / application-data / alert records / garbage, at function level and end to end incl. cuts right behind each record)",
     "tls.get_client_hello (reassembly of the ClientHello from TLS records) has no T1 contract: with symbolic fragment contents the nested slice terms cost 20-70 s of solver time per obligation (tried in three encodings); it is checked in T2 against an RFC 8446 reference on *every* record fragmentation of synthetic handshake streams (<= 9 bytes, complete / truncated / followed by another message, with partial trailing records), on a real OpenSSL ClientHello re-cut into 2-4 records, and end-to-end",
 ]
 
@@ -202,7 +203,12 @@ def s_next_layer_step1(vc):
     proto = vc.case("transport", ["tcp", "udp"])
     outcome = vc.case("_ignore_connection", ["ignored", "not_ignored", "needs_more_data"])
     show = vc.sym_bool("show_ignored_hosts")
-    client = mk_client(vc, transport_protocol=proto, proxy_mode=vc.new(MS + "RegularMode", full_spec="regular", data="", custom_listen_host=None, custom_listen_port=None))
+    # the rules apply whatever the state of the client connection: plain, or TLS already terminated with the client
+    # (secure web proxy; a second decision below an established client TLS layer)
+    client_tls = vc.case("client_tls_established", [False, True])
+    client = mk_client(vc, transport_protocol=proto, tls=client_tls, timestamp_tls_setup=1.5 if client_tls else None, sni="proxy.example" if client_tls else None,
+                       alpn=vc.case("client_alpn", [None, b"http/1.1"]) if client_tls else None,
+                       proxy_mode=vc.new(MS + "RegularMode", full_spec="regular", data="", custom_listen_host=None, custom_listen_port=None))
     server = mk_server(vc, transport_protocol=proto)
     opts = mk_options(vc, show_ignored_hosts=show, rawtcp=True, ignore_hosts=vc.list(["x"]), allow_hosts=vc.list([]))
     top = vc.new("mitmproxy.proxy.layers.modes:HttpProxy", context=None, debug=None, _paused=None, _paused_event_queue=None)
@@ -565,7 +571,13 @@ def _compositions(n):
 def _mk(mode, ignore_hosts=(), allow_hosts=(), dst=None, **kw):
     from mitmproxy.addons import next_layer
     from props.addons_sansio import Proxy
-    return Proxy(mode, [next_layer.NextLayer()], transparent_dst=dst, ignore_hosts=list(ignore_hosts), allow_hosts=list(allow_hosts), connection_strategy="lazy", **kw)
+    client_tls = mode.startswith("clienttls+")            # TLS already terminated with the client (secure web proxy / below a client TLS layer)
+    p = Proxy(mode.removeprefix("clienttls+"), [next_layer.NextLayer()], transparent_dst=dst, ignore_hosts=list(ignore_hosts), allow_hosts=list(allow_hosts), connection_strategy="lazy", **kw)
+    if client_tls:
+        p.client.tls = True
+        p.client.timestamp_tls_setup = 1.5
+        p.client.sni = "proxy.example"
+    return p
 
 
 def _e2e_cases():
@@ -584,6 +596,15 @@ def _e2e_cases():
     hello = _client_hello("example.com")
     cases.append(("transparent TLS, SNI", "transparent", [], ("93.184.216.34", 443), hello, "example.com"))
     cases.append(("regular CONNECT ip:443, TLS SNI", "regular", [b"CONNECT 93.184.216.34:443 HTTP/1.1\r\n\r\n"], None, hello, "example.com"))
+    # TLS 1.3 0-RTT flight in one buffer: ClientHello | ChangeCipherSpec | early application data
+    ccs, early = b"\x14\x03\x03\x00\x01\x01", b"\x17\x03\x03\x00\x10" + bytes(range(16))
+    cases.append(("transparent TLS, SNI, hello + CCS + early data", "transparent", [], ("93.184.216.34", 443), hello + ccs + early, "example.com"))
+    cases.append(("transparent TLS, SNI, hello + CCS", "transparent", [], ("93.184.216.34", 443), hello + ccs, "example.com"))
+    cases.append(("regular CONNECT ip:443, TLS SNI, hello + CCS + early data", "regular", [b"CONNECT 93.184.216.34:443 HTTP/1.1\r\n\r\n"], None, hello + ccs + early, "example.com"))
+    # TLS already terminated with the client: the rules still apply
+    cases.append(("secure web proxy (client TLS), CONNECT hostname, http inside", "clienttls+regular", [b"CONNECT example.com:80 HTTP/1.1\r\nHost: example.com:80\r\n\r\n"], None, http(b"Host: example.com"), "example.com:80"))
+    cases.append(("secure web proxy (client TLS), CONNECT ip, Host header names the site", "clienttls+regular", [b"CONNECT 93.184.216.34:80 HTTP/1.1\r\n\r\n"], None, http(b"Host: example.com"), "example.com"))
+    cases.append(("transparent below client TLS, Host header", "clienttls+transparent", [], ("93.184.216.34", 443), http(b"Host: example.com"), "example.com"))
     for lens in ([1], [2], [3], [4], [1, 1, 1], [5, 40]):
         cases.append((f"transparent TLS, SNI, hello in records {lens}+rest", "transparent", [], ("93.184.216.34", 443), _refragment(hello, lens), "example.com"))
     return cases
@@ -705,6 +726,23 @@ def bounded(tier, seed):
                 b.fail("e2e.bytes_pipelined_behind_connect_relayed_untouched", inp, f"server received {got2!r}")
             if any(h in FLOW_HOOKS for h in _hooks_after_preamble(p, [head])):
                 b.fail("e2e.ignored_connection_fires_no_flow_hooks", inp, str(p.hooks()))
+    for tail in (b"\x14\x03\x03\x00\x01\x01", b"\x14\x03\x03\x00\x01\x01\x17\x03\x03\x00\x04abcd", b"\x17\x03\x03\x00\x02ab", b"\x15\x03\x03\x00\x02\x02\x28", b"\x00garbage", b"\x17\x03"):
+        for lens in ([], [3], [1, 1]):
+            data = _refragment(hello, lens) + tail
+            b.case(("sni-then-other-records", tuple(lens), tail), nontrivial=True)
+            try:
+                ch = _nl.NextLayer._get_client_hello(_sansio.context_for(), data)
+                r = ("value", ch.sni if ch is not None else None)
+            except _nl.NeedsMoreData:
+                r = ("more",)
+            if r != ("value", "example.com"):
+                b.fail("client_hello.sni_unaffected_by_records_behind_the_hello", {"fragment_lengths": lens, "tail": tail.hex()}, f"got {r!r}")
+            try:
+                got = _tls.get_client_hello(data)
+            except Exception as e:
+                got = f"raised {type(e).__name__}: {e}"
+            if got != hello[5:]:
+                b.fail("client_hello.reassembly_ignores_what_follows", {"fragment_lengths": lens, "tail": tail.hex()}, f"got {str(got)[:80]!r}")
     # ---- (2) end to end
     rule_sets = [("ignore.match", lambda d: dict(ignore_hosts=[_rx(d)]), True), ("ignore.nomatch", lambda d: dict(ignore_hosts=[r"nomatch\.invalid"]), False),
                  ("allow.match", lambda d: dict(allow_hosts=[_rx(d)]), False), ("allow.nomatch", lambda d: dict(allow_hosts=[r"nomatch\.invalid"]), True)]
@@ -761,8 +799,14 @@ def _cut_points(payload, tier):
     n = len(payload)
     if tier == "thorough":
         return list(range(1, n))
-    pts = sorted(set([1, 2, 3, 4, 5, n // 2, n - 1] + [payload.find(b"Host") + k for k in (0, 4, 5, 6)] + [payload.find(b"\r\n") + 1, payload.find(b"\r\n") + 2]))
-    return [i for i in pts if 0 < i < n][:12]
+    rec_ends = []
+    if payload[:1] == b"\x16":      # TLS: also cut right behind every record
+        o = 0
+        while o + 5 <= n:
+            o += 5 + int.from_bytes(payload[o + 3:o + 5], "big")
+            rec_ends.append(o)
+    pts = sorted(set(rec_ends + [1, 2, 3, 4, 5, n // 2, n - 1] + [payload.find(b"Host") + k for k in (0, 4, 5, 6)] + [payload.find(b"\r\n") + 1, payload.find(b"\r\n") + 2]))
+    return [i for i in pts if 0 < i < n][:16]
 
 
 def _hooks_after_preamble(p, pre):
